@@ -15,8 +15,8 @@ QUICK_MS = int(os.environ.get("PYVC_TIMEOUT_MS", "15000"))
 # is interrupted and the answer is `unknown` with reason "wall-clock" (never turned into a verdict about the code).
 RL_PER_MS = 5000
 BASE_MS = 20000   # the quick tier's per-obligation budget
-WALL_FACTOR = 30.0
-WALL_SLACK = 120.0
+WALL_FACTOR = float(os.environ.get("PYVC_WALL_FACTOR", "30"))   # (the seed re-test tool lowers both: a stuck solver on a mutant costs time, not a verdict)
+WALL_SLACK = float(os.environ.get("PYVC_WALL_SLACK", "120"))
 WALLCLOCK_HITS = []
 DERIVED = {}   # ast id -> term: assumptions that are consequences of the others or conservative definitions (State.assume(derived=True))
 STATS = dict(checks=0, seconds=0.0, rlimit_last=0)
